@@ -218,6 +218,77 @@ def dedup_scopes(shared):
       'k'] == 5
 
 
+def dedup_grandchild(depth):
+  """a scope passed together with a descendant `depth` levels below it: inside the
+  transform the descendant is re-created at the same relative path"""
+  variables = {'stats': {'k': 1}}
+  names = ['a', 'b', 'c'][:depth]
+
+  def fn(sc):
+    g = sc
+    for nm in names:
+      g = g.push(nm)
+
+    def body(scopes, x_):
+      s1, s2 = scopes
+      s2.put_variable('stats', 'k', 5)
+      return s2.path
+    return L.checkpoint(body, variables=True, rngs=True)((sc, g), 0)
+  with LiftEnv():
+    path, mv = S.apply(fn, mutable=True)(variables)
+  want = {'k': 1}
+  cur = want
+  for nm in names:
+    cur[nm] = {}
+    cur = cur[nm]
+  cur['k'] = 5
+  return tuple(path) == tuple(names) and C1.plain(mv) == {'stats': want}
+
+
+from harness import c09 as C9
+_K = C9._KEYS
+
+
+def lifted_rng_counters(t, mi, uses, draws):
+  """random draws inside a lifted function are the plain code's draws: same keys
+  (as terms), counters advanced in the caller's scope, also when the same lifted
+  function is used several times in one apply and nothing is mutable"""
+  _, mk, mref = pick(C1.MUT, mi)
+
+  def body(sc, x_):
+    ks = []
+    for _ in range(draws):
+      ks.append(sc.make_rng('params'))
+    return ks
+
+  def run(lifted):
+    got = []
+
+    def fn(sc):
+      for _ in range(uses):
+        if not lifted:
+          got.extend(body(sc, 0))
+        elif t == 0:
+          got.extend(L.checkpoint(body, variables=True, rngs=True)(sc, 0))
+        elif t == 1:
+          got.extend(L.map_variables(body, 'stats', map_in_fn=lambda v: v,
+                                     map_out_fn=lambda v: v)(sc, 0))
+        else:
+          got.extend(L.cond(True, body, body, sc, 0, variables=True, rngs=True))
+      got.extend(body(sc, 0))      # and a plain draw afterwards
+    tf = C9._TermFold()
+    saved = S._fold_in_static
+    S._fold_in_static = tf
+    try:
+      with LiftEnv():
+        S.apply(fn, mutable=mk())({'stats': {'k': 1}}, rngs={'params': _K[0]})
+    finally:
+      S._fold_in_static = saved
+    return got
+  a, b = run(True), run(False)
+  return a == b and len(set(a)) == len(a)
+
+
 EXPLANATION = (
     'C05: scope programs (C01 op set, <=2 ops) run through lift.checkpoint / jit / '
     'identity map_variables / cond / switch with symbolic lifting filter, outer '
@@ -266,4 +337,11 @@ def obligations(tier):
          bounds='trip counts 0..3, carried stats / broadcast params'),
       Ob('lifted_scope_dedup', dedup_scopes, dict(shared=B()), timeout=120,
          funcs=F),
+      Ob('lifted_scope_descendant_path', dedup_grandchild, dict(depth=I(1, 3)),
+         timeout=120, funcs=F),
+      Ob('lifted_rng_counters', lifted_rng_counters,
+         dict(t=I(0, 2), mi=I(0, nmut), uses=I(1, 3), draws=I(0, 2)),
+         split=('t',), timeout=600, funcs=F,
+         bounds='checkpoint / map_variables / cond used 1..3 times in one apply, '
+                '0..2 draws each, all mutable forms; keys compared as terms'),
   ]
